@@ -370,6 +370,7 @@ func runIntegJob(c *Ctl, job *Job, idx int, res *RunResult) {
 		prof.Checks["C07"] = true
 		gen.HookOutput = true
 		gen.HugePct = 2
+		gen.InteractivePct = 10
 		w = GenTaskWorld(c.Ch, gen)
 		w.Format = []string{"raw", "prefixed", "cockpit"}[c.Ch.Weighted([]int{3, 2, 1}, "format")]
 	case "c07":
@@ -396,6 +397,7 @@ func runIntegJob(c *Ctl, job *Job, idx int, res *RunResult) {
 			gen.OutputProb = 50
 			gen.HookOutput = true
 			gen.CtxPct = 15
+			gen.InteractivePct = 10
 			w = GenTaskWorld(c.Ch, gen)
 			// what is reported must not depend on how the output is presented
 			w.Format = []string{"raw", "prefixed", "cockpit"}[c.Ch.Weighted([]int{2, 3, 1}, "format")]
@@ -439,7 +441,7 @@ func runIntegJob(c *Ctl, job *Job, idx int, res *RunResult) {
 	}
 	if idx%3 == 1 {
 		// a third of the runs also preempt goroutines at function entries inside taskctl's code
-		prof.PreemptPct, prof.PreemptDepth = 12, 14
+		prof.PreemptPct, prof.PreemptDepth = 25, 14
 	}
 	res.Sample = map[string]interface{}{"world": w.Summary()}
 	e := RunIntegWorld(c, prof, w, res)
